@@ -49,8 +49,8 @@ structure Verdict where
   /-- is this output one the pinned model can produce for some iteration order? -/
   allowed : Json → Bool
   fixed : Json
-  /-- known-finding ids explaining a deviation of this output from `fixed` -/
-  known : Json → List String
+  /-- known-finding ids explaining a deviation of the observed set of outputs from `{fixed}` -/
+  known : List Json → List String
   nontrivial : Bool := true
 
 def templatesJson (keys : List String) (m : String → Option String) : Json :=
@@ -117,11 +117,14 @@ def verdict (kind : String) (i : Json) : Verdict :=
     let stableOfSomeOrder (o : List String) := ((perms files).map (fun π => labelsFor (collectFromResolvedIn primary π))).contains o
     { allowed := fun out => isTruncRanking items max (strList out)
       fixed := jstrs fixedL
-      known := fun out =>
-        let o := strList out
-        if o == fixedL then [] else
-        if stableOfSomeOrder o then ["collectors-file-order"] else
-        if files.length ≥ 2 then ["collectors-file-order", "completion-unstable-sort"] else ["completion-unstable-sort"]
+      known := fun impl =>
+        let os := impl.map strList
+        -- run-to-run variation can only come from the order of resolved.Files; an order that no
+        -- stable sort of any file order explains comes from sort.Slice's freedom among ties
+        let a := if files.length ≥ 2 && (os.length > 1 || os.any (fun o => o != fixedL && stableOfSomeOrder o))
+                 then ["collectors-file-order"] else []
+        let b := if os.any (fun o => !stableOfSomeOrder o) then ["completion-unstable-sort"] else []
+        a ++ b
       nontrivial := files.length ≥ 2 && items.length ≥ 2 }
   | "concat" =>
     let docs := entriesOf strList (jget i "docs")
@@ -191,7 +194,7 @@ def repeatOp (j : Json) : Json :=
     let v := verdict kind (jget j "in")
     let corr := !impl.isEmpty && impl.all v.allowed
     let specOk := impl.length == 1 && impl.all (jeq v.fixed)
-    let known := if corr && !specOk then dedup (impl.flatMap v.known) else []
+    let known := if corr && !specOk then dedup (v.known impl) else []
     Json.mkObj [("model", if corr then Json.arr impl.toArray else Json.arr #[v.fixed]), ("spec_ok", specOk),
       ("in_domain", true), ("known", jstrs known),
       ("why", if specOk then "" else s!"site {jstr j "site"}: {impl.length} distinct response(s), expected exactly {v.fixed.compress}"),
